@@ -74,6 +74,7 @@ def judge(ctx, tr, driver, smallest):
         mon, j = f["mon"].split("#")
         e = ev[f["i"] - 1]
         c = classify(e, mon, int(j) - 1)
+        c["conforms"] = f.get("conforms", True)
         key = (c["monitor"], c["class"])
         seen[key] = seen.get(key, 0) + 1
         size = (len(e["g"]["mk"]), e["g"]["n"], e["k"], sum(abs(m["cab"]) + abs(m["cba"]) for m in e["g"]["mk"]))
